@@ -295,3 +295,103 @@ func c14Env(c *core.Ctx) {
 		}
 	}
 }
+
+// ---- compiler option histories: a compiler is what the last calls of each option made it.
+// WithPrettyPrint(opts...) starts from the defaults (two spaces, semicolons) and applies opts in order;
+// WithSourceMap() stays on; a Compile in the middle of the history changes nothing.
+
+type c14KCall struct {
+	name  string
+	apply func(k *compiler.Compiler)
+	model func(m *Cfg)
+}
+
+var c14KCalls = []c14KCall{
+	{"WithPrettyPrint()", func(k *compiler.Compiler) { k.WithPrettyPrint() }, func(m *Cfg) { m.Pretty, m.Indent, m.Semi = true, 2, 1 }},
+	{"WithPrettyPrint(WithTabs())", func(k *compiler.Compiler) { k.WithPrettyPrint(compiler.WithTabs()) }, func(m *Cfg) { m.Pretty, m.Indent, m.Semi = true, -1, 1 }},
+	{"WithPrettyPrint(WithSpaces(4), WithSemi(false))", func(k *compiler.Compiler) { k.WithPrettyPrint(compiler.WithSpaces(4), compiler.WithSemi(false)) }, func(m *Cfg) { m.Pretty, m.Indent, m.Semi = true, 4, 0 }},
+	{"WithPrettyPrint(WithSemi(false), WithSemi(true), WithSpaces(1))", func(k *compiler.Compiler) {
+		k.WithPrettyPrint(compiler.WithSemi(false), compiler.WithSemi(true), compiler.WithSpaces(1))
+	}, func(m *Cfg) { m.Pretty, m.Indent, m.Semi = true, 1, 1 }},
+	{"WithPrettyPrint(WithSpaces(3), WithTabs())", func(k *compiler.Compiler) { k.WithPrettyPrint(compiler.WithSpaces(3), compiler.WithTabs()) }, func(m *Cfg) { m.Pretty, m.Indent, m.Semi = true, -1, 1 }},
+	{"WithPrettyPrint(WithTabs(), WithSpaces(0))", func(k *compiler.Compiler) { k.WithPrettyPrint(compiler.WithTabs(), compiler.WithSpaces(0)) }, func(m *Cfg) { m.Pretty, m.Indent, m.Semi = true, 0, 1 }},
+	{"WithSourceMap()", func(k *compiler.Compiler) { k.WithSourceMap() }, func(m *Cfg) { m.Map = true }},
+}
+
+var c14KProbes = []string{"function f(a) {\n  if (a) {\n    return - -a\n  }\n  // c\n  let t = `x  \n y`; t\n}", "x = a + ++b; while (c) { d-- }\n\n\ny", "let o = {k: [1, 2], f: function() { return 1 }}"}
+
+func c14KHistory(hist []int) (kind, detail string) {
+	k := compiler.New()
+	var m Cfg
+	m.Indent, m.Semi = -2, -1
+	var names []string
+	progs := make([]*ast.Program, len(c14KProbes))
+	for i, s := range c14KProbes {
+		progs[i] = parseMode(s, Mode{}).Prog
+	}
+	for i, h := range hist {
+		c14KCalls[h].apply(k)
+		c14KCalls[h].model(&m)
+		names = append(names, c14KCalls[h].name)
+		if i == len(hist)/2 {
+			func() {
+				defer func() { recover() }()
+				k.Compile(progs[0])
+			}()
+		}
+	}
+	for i, prog := range progs {
+		want := compileCfg(prog, m)
+		var got CompOut
+		func() {
+			defer func() {
+				if r := recover(); r != nil {
+					got.Panic = panicText(r)
+				}
+			}()
+			r := k.Compile(prog)
+			got.Code, got.Map = r.Code, r.SourceMap
+		}()
+		if got.Panic != "" || want.Panic != "" {
+			if got.Panic != want.Panic {
+				return "compiler-option-history", fmt.Sprintf("New().%s on %q: panic %q; a compiler configured as %s: panic %q", strings.Join(names, "."), c14KProbes[i], got.Panic, m, want.Panic)
+			}
+			continue
+		}
+		if got.Code != want.Code || mapText(got.Map) != mapText(want.Map) {
+			return "compiler-option-history", fmt.Sprintf("New().%s compiles %q to %q (map %s); a compiler configured as %s gives %q (map %s)", strings.Join(names, "."), c14KProbes[i], core.Short(got.Code, 200), core.Short(mapText(got.Map), 120), m, core.Short(want.Code, 200), core.Short(mapText(want.Map), 120))
+		}
+	}
+	return "", ""
+}
+
+func c14CompilerOptions(c *core.Ctx) {
+	n := 3
+	if c.Thorough() {
+		n = 4
+	}
+	for L := 1; L <= n; L++ {
+		gen.EachSeq(len(c14KCalls), L, func(idx []int) bool {
+			if !c.Next() || c.Tick() {
+				return true
+			}
+			c.Inc("compiler_option_histories")
+			if k, d := c14KHistory(idx); k != "" && c.ShrinkOK(k) {
+				sh := core.ShrinkSeq(append([]int{}, idx...), nil, func(x []int) bool { kk, _ := c14KHistory(x); return kk != "" })
+				if _, d2 := c14KHistory(sh); d2 != "" {
+					d = d2
+				} else {
+					sh = idx
+				}
+				var names, nums []string
+				for _, h := range sh {
+					names = append(names, c14KCalls[h].name)
+					nums = append(nums, fmt.Sprint(h))
+				}
+				pl, _ := json.Marshal(c14Payload{Clause: "kopt", Text: nums})
+				c.Violate(core.Violation{Kind: k, Case: "New()." + strings.Join(names, "."), Detail: d, Payload: pl, Size: len(sh)})
+			}
+			return true
+		})
+	}
+}
